@@ -76,6 +76,8 @@ def state_case(draw, types=TYPES, n=(1, 4), nh=(1, 4), na=(1, 3), scales=SCALES,
     case = {"type": t, "n": nv, "nh": nhid}
     if t == "density":
         naux = draw(st.integers(*na))
+        if na[0] > 0 and na[1] > na[0] and draw(st.integers(0, 11)) == 0:
+            naux = 0          # boundary of the documented range: no purification units at all (the mixed-state class then describes a pure state)
         case["na"] = naux
         case["am"] = draw(net_params(nv, nhid, naux, scales))
         # the phase network's auxiliary bias has no effect on rho (it cancels in Psi Psi^dagger and the library never reads it);
@@ -215,6 +217,8 @@ def arch_label(case):
     lab = [f"type={case['type']}", f"n={case['n']}"]
     if case["nh"] != case["n"]:
         lab.append("nh!=nv")
+    if case.get("na") == 0:
+        lab.append("na=0(no purification units)")
     if case.get("na") is not None and case["na"] != case["n"]:
         lab.append("na!=nv")
     if case.get("rescaled"):
